@@ -99,12 +99,15 @@ pub struct Sim {
     /// accesses to the monitored page per simulated thread in this phase (runaway bound)
     accesses: [u32; MAXT],
     tids: [libc::pthread_t; MAXT],
+    /// (holder, its access count, scheduling position) at the last expiry of the CPU budget
+    last_expiry: (i32, u32, usize),
 }
 
 /// An execution that touches the shared page more often than this has run away (the largest
 /// generated program performs a few dozen accesses): it is ended and reported as crashed.
 pub const ACCESS_BUDGET: u32 = 4096;
-/// CPU seconds (user and system: ITIMER_PROF) one scenario may consume before the execution holding the baton is ended.
+/// CPU seconds (user and system: ITIMER_PROF) between two looks at the execution holding the baton;
+/// it is ended at the second look in a row that finds it exactly where it was.
 pub const CPU_BUDGET_S: i64 = 5;
 /// the pseudo signal number both bounds report
 pub const RUNAWAY: i32 = libc::SIGXCPU;
@@ -233,6 +236,7 @@ impl Sim {
         self.switches = 0;
         self.overflow = false;
         self.accesses = [0; MAXT];
+        self.last_expiry = (-2, 0, 0);
         self.pending = [None; MAXT];
         self.crash_sig = [0; MAXT];
         match replay {
@@ -557,6 +561,14 @@ extern "C" fn on_vtalrm(_sig: libc::c_int, _info: *mut libc::siginfo_t, ctx: *mu
         if !s.active || holder < 0 || s.jb[holder as usize].is_null() {
             return;
         }
+        // Only an execution that made no progress at all between two expiries is ended here (one that
+        // keeps touching the page runs into the access budget): CPU time the kernel spends on this
+        // process's behalf elsewhere, or time stolen from the virtual CPU, cannot end a healthy run.
+        let now = (holder, s.accesses[holder as usize], s.effective.len());
+        if s.last_expiry != now {
+            s.last_expiry = now;
+            return;
+        }
         WATCHDOG_FIRED.fetch_add(1, Ordering::Relaxed);
         let tid = s.tids[holder as usize];
         if libc::pthread_equal(libc::pthread_self(), tid) != 0 {
@@ -567,8 +579,12 @@ extern "C" fn on_vtalrm(_sig: libc::c_int, _info: *mut libc::siginfo_t, ctx: *mu
     }
 }
 
-extern "C" fn on_xcpu(_sig: libc::c_int, _info: *mut libc::siginfo_t, ctx: *mut libc::c_void) {
+extern "C" fn on_xcpu(_sig: libc::c_int, info: *mut libc::siginfo_t, ctx: *mut libc::c_void) {
     unsafe {
+        // only the one this process sent to itself (a kernel SIGXCPU from an RLIMIT_CPU is not ours)
+        if (*info).si_code != libc::SI_TKILL || (*info).si_pid() != libc::getpid() {
+            return;
+        }
         let s = sim();
         let holder = s.baton.load(Ordering::Acquire);
         if s.active && holder >= 0 && !s.jb[holder as usize].is_null() && libc::pthread_equal(libc::pthread_self(), s.tids[holder as usize]) != 0 {
@@ -628,6 +644,7 @@ pub fn init() {
             switches: 0,
             accesses: [0; MAXT],
             tids: [0; MAXT],
+            last_expiry: (-2, 0, 0),
         });
         SIM = Box::leak(s);
         for (sig, h) in [
